@@ -304,8 +304,40 @@ P_C05 == Quiescent =>
    /\ \A qi \in Insts : \A qa, qb \in 1..Len(hdl[qi]) :
          (qa < qb /\ hdl[qi][qa].t = hdl[qi][qb].t /\ hdl[qi][qa].m = hdl[qi][qb].m /\ hdl[qi][qa].p # hdl[qi][qb].p) =>
              IF IsB THEN QArrival(qi, hdl[qi][qa].p) < QArrival(qi, hdl[qi][qb].p) ELSE hdl[qi][qa].p < hdl[qi][qb].p
-P_C08 == TRUE
-P_C09 == TRUE
+\* ---------------------------------------------------------------- C08 / C09: what a (re-)entered submachine activates
+\* documented restore function: named regions as the target says, the others by the history policy
+QRestore(qi, qs, qet, qnamed) ==
+   [qr \in 1..NReg(qs) |->
+        IF \E qn \in 1..Len(qnamed) : RegOf(qs, qnamed[qn]) = qr
+        THEN qnamed[CHOOSE qn \in 1..Len(qnamed) : RegOf(qs, qnamed[qn]) = qr]
+        ELSE IF HistKind(qs) = "always" \/ (HistKind(qs) = "shallow" /\ qet \in HistEvents(qs)) THEN lastcfg[qi][qs][qr]
+        ELSE MD(qs).init[qr]]
+\* for every completed transition into a submachine: the entry behaviours that run right after the submachine's own entry, on the
+\* submachine's level, are exactly those of the restored / named states, once each
+QEntryOK(qo, qi) ==
+   LET qj == QTakenPos(qo, qi)
+       qrow == QRowOfTake(qo[qi])
+       qs == qrow.tgt
+       qwin == QOutsidePei(qo, qi+1, qj, <<>>)
+       qens == SelectSeq(qwin, LAMBDA qx : qo[qx].k = "en" /\ qo[qx].m = qs /\ qo[qx].i = qo[qi].i)
+       qgot == [qq \in 1..Len(qens) |-> qo[qens[qq]].id]
+       qwant == QRestore(qo[qi].i, qs, qo[qi].e, qrow.named)
+   IN (qj # 0 /\ ~qo[qi].r /\ qs \in Machines /\ IsSub(qo[qi].m, qs)) =>
+         /\ Len(qgot) = NReg(qs)
+         /\ {qgot[qq] : qq \in 1..Len(qgot)} = {qwant[qq] : qq \in 1..NReg(qs)}
+         /\ (Len(qrow.named) # NReg(qs) \/ IsB) => qgot = qwant          \* region order (backmp11 with every region named: order of the target list)
+\* the lastcfg ghost changes when the same call leaves the submachine again, so the formula is evaluated on calls that enter it once
+QEntersOnce(qo, qs) == Cardinality({qx \in 1..Len(qo) : qo[qx].k = "ex" /\ qo[qx].id = qs}) = 0
+P_C08 == Quiescent => \A qi \in 1..QLen :
+            (obs[qi].k = "take" /\ obs[qi].id = "table" /\ QEntersOnce(obs, MD(obs[qi].m).table[obs[qi].p].tgt)) => QEntryOK(obs, qi)
+\* C09: a row leaving an exit point is taken only while that exit point is the active state of its submachine; and a transition into
+\* an exit point forwards the exit point's event to the root within the same call
+P_C09 == Quiescent =>
+            /\ P_C08
+            /\ \A qi \in 1..QLen : (obs[qi].k = "xptake") => obs[qi].r
+            /\ \A qi \in 1..QLen :
+                  (obs[qi].k = "taken" /\ ~obs[qi].r /\ IsExitPt(obs[qi].m, obs[qi].id) /\ ~sawexc[obs[qi].i]) =>
+                      \E qj \in 1..QLen : obs[qj].k = "submit" /\ obs[qj].id = "xp" /\ obs[qj].m = Def.root /\ obs[qj].e = MD(obs[qi].m).xpev[obs[qi].id]
 P_C18 == Quiescent => \A qi \in 1..QLen : (IsCb(obs[qi]) /\ obs[qi].e \notin {"start", "stop", "none"}) => obs[qi].e \in Def.events
 P_C19 == TRUE
 ====
